@@ -28,7 +28,72 @@ def build(P):
     return out
 
 
-def structural(P, abs_):
+VISIBILITY_STRESS = r'''use emit_core::{clock::Clock, emitter::Emitter, event::ToEvent, runtime::{AmbientSlot, Runtime}, timestamp::Timestamp};
+use std::sync::{atomic::{AtomicUsize, Ordering}, Arc};
+use std::time::{Duration, Instant};
+
+struct Tag(Vec<u8>);
+impl Emitter for Tag {
+    fn emit<E: ToEvent>(&self, _: E) {}
+    fn blocking_flush(&self, _: Duration) -> bool { true }
+}
+struct Clk;
+impl Clock for Clk {
+    fn now(&self) -> Option<Timestamp> { Timestamp::from_unix(Duration::from_secs(1)) }
+}
+
+const OBSERVERS: usize = 3;
+const ROUNDS: usize = 20000;
+
+fn main() {
+    let slots: Arc<Vec<AmbientSlot>> = Arc::new((0..ROUNDS).map(|_| AmbientSlot::new()).collect());
+    let bad = Arc::new(AtomicUsize::new(0));
+    let seen = Arc::new(AtomicUsize::new(0));
+    let barrier = Arc::new(AtomicUsize::new(0));
+    let stop = Arc::new(AtomicUsize::new(ROUNDS));
+    let start = Instant::now();
+    let threads = OBSERVERS + 1;
+    let handles: Vec<_> = (0..threads).map(|id| {
+        let (slots, bad, seen, barrier, stop) = (slots.clone(), bad.clone(), seen.clone(), barrier.clone(), stop.clone());
+        std::thread::spawn(move || {
+            for round in 0..ROUNDS {
+                if id == 0 && (bad.load(Ordering::SeqCst) > 0 || start.elapsed() > Duration::from_secs(40)) { stop.store(round, Ordering::SeqCst); }
+                barrier.fetch_add(1, Ordering::SeqCst);
+                let mut spins = 0u32;
+                while barrier.load(Ordering::SeqCst) < (round + 1) * threads {
+                    std::hint::spin_loop();
+                    spins += 1;
+                    if spins % 2000 == 0 { std::thread::yield_now(); }
+                }
+                if round >= stop.load(Ordering::SeqCst) { break; }
+                let slot = &slots[round];
+                if id == 0 {
+                    // the (only) initialiser; components whose construction takes a moment, as real ones do
+                    let _ = slot.init(Runtime::new().with_emitter(Tag(vec![7u8; 4096])).with_clock(Clk));
+                } else {
+                    for _ in 0..200_000 {
+                        if slot.is_enabled() {
+                            seen.fetch_add(1, Ordering::SeqCst);
+                            // C20: from the moment ANY thread observes the slot as enabled, every thread sees the winning components
+                            if slot.get().clock().now().is_none() { bad.fetch_add(1, Ordering::SeqCst); }
+                            break;
+                        }
+                        std::hint::spin_loop();
+                    }
+                }
+            }
+        })
+    }).collect();
+    for h in handles { h.join().unwrap(); }
+    let (b, s) = (bad.load(Ordering::SeqCst), seen.load(Ordering::SeqCst));
+    println!("{} rounds, {} observations of an enabled slot in {:?}: {} saw the empty runtime", stop.load(Ordering::SeqCst), s, start.elapsed(), b);
+    assert!(s > 0, "stress run made no observation");
+    assert!(b == 0, "{} observer(s) saw AmbientSlot::is_enabled() == true while AmbientSlot::get() still returned the empty runtime (the winner's clock was not visible)", b);
+}
+'''
+
+
+def structural(P, abs_, native_for=None):
     obs = []
     A = abs_["init"]
     checks = []
@@ -93,8 +158,19 @@ def structural(P, abs_):
             wit = [("path_get_returns_Some", B, [_or([b_and(r.guard, i_eq(g.out, 1)) for r in B.returns])]),
                    ("path_get_returns_None", B, [_or([b_and(r.guard, i_eq(g.out, 0)) for r in B.returns])])]
             false = [("FALSE_get_always_returns_Some", B, [_or([b_and(r.guard, i_eq(g.out, 0)) for r in B.returns])])]
+        fb = None
+        if native_for is not None:
+            # `get` / `is_enabled` no longer answer from one read of the OnceLock: candidate "a thread can observe the slot as
+            # enabled while `get()` does not show the winner's components yet" - replayed as a stress run of the real code
+            def fb(ctx, problems, m=m):
+                from .cfg_driver import native_verdict
+                return native_verdict(ctx, "E2cfg_%s_one_get" % m, native_for(), VISIBILITY_STRESS, "core", [], features=["std"],
+                                      default_features=False,
+                                      note="AmbientSlot::%s does not read the OnceLock exactly once (%s); candidate: enabled observed before the "
+                                           "components are visible; replayed as a stress run: 1 initialiser + 3 observers x 20000 fresh slots, each "
+                                           "observer spins on is_enabled() and then reads get().clock()" % (m, "; ".join(problems)[:200]))
         obs.append(CfgObligation("E2cfg_%s_one_get" % m, [B], [FNS[1] if m == "get" else FNS[2]],
-                                 "all abstract paths of the MIR of AmbientSlot::%s (loop-free)" % m, must, wit, false, static_checks=ch))
+                                 "all abstract paths of the MIR of AmbientSlot::%s (loop-free)" % m, must, wit, false, static_checks=ch, fallback=fb))
     return obs
 
 
